@@ -212,6 +212,8 @@ func ZZC11History() {
 }
 
 // ZZC11Docs: Document objects: Check/Len/NextLexeme in any order give what fresh objects give.
+func c11Any() *jschema.Schema { return jschema.New("any", `1 // {type: "any"}`) }
+
 func ZZC11Docs() {
 	texts := []string{`{"a":[1,2],"b":"x"}`, `[1,`, `  12  `, `"a"x`, `{"a": 1, "b": }`}
 	t := texts[v.Choose(0, len(texts)-1)]
@@ -226,7 +228,7 @@ func ZZC11Docs() {
 	n := v.Param("ops", 2)
 	cursorMoved := false
 	for i := 0; i < n; i++ {
-		switch v.Choose(0, 2) {
+		switch v.Choose(0, 4) {
 		case 0:
 			d.Check()
 		case 1:
@@ -234,8 +236,23 @@ func ZZC11Docs() {
 		case 2:
 			d.NextLexeme()
 			cursorMoved = true
+		case 3:
+			// read to the end (or to the first error)
+			for k := 0; k < 40; k++ {
+				if _, err := d.NextLexeme(); err != nil {
+					break
+				}
+			}
+			cursorMoved = true
+		case 4:
+			// a validation reads the document through the same cursor
+			_ = c11Any().Validate(d)
 		}
 	}
+	// a validation starts from the beginning whatever was read before
+	vo1, vc1, vp1 := errSig(c11Any().Validate(d))
+	vo2, vc2, vp2 := errSig(c11Any().Validate(mk()))
+	v.Assert(vo1 == vo2 && vc1 == vc2 && vp1 == vp2, "C11/document-validation-depends-on-history")
 	f := mk()
 	ok1, c1, p1 := errSig(d.Check())
 	ok2, c2, p2 := errSig(f.Check())
